@@ -165,6 +165,7 @@ func gDump(nm *vh.Names, d map[string][]DLeaf) string {
 
 func ingestTerm(nm *vh.Names, targets []string, ops []Op, obs []IObs) string {
 	steps := make([]string, len(ops))
+	prev := ""
 	for i, op := range ops {
 		o := obs[i]
 		if op.K == "refresh" {
@@ -184,7 +185,14 @@ func ingestTerm(nm *vh.Names, targets []string, ops []Op, obs []IObs) string {
 		default:
 			r = "RPanic"
 		}
-		steps[i] = fmt.Sprintf("(IMsg %s, OIngest %s %s)", gNotif(nm, op.N), r, gDump(nm, o.Dump))
+		d := gDump(nm, o.Dump)
+		if d == prev {
+			d = "None"
+		} else {
+			prev = d
+			d = "(Some " + d + ")"
+		}
+		steps[i] = fmt.Sprintf("(IMsg %s, OIngest %s %s)", gNotif(nm, op.N), r, d)
 	}
 	return fmt.Sprintf("CIngest %s %s", nm.Path(targets), vh.List(steps))
 }
@@ -202,6 +210,7 @@ type subStream struct {
 	ferr   error
 	calls  int
 	synced bool
+	syncCh chan struct{}
 }
 
 func (s *subStream) Context() context.Context { return s.ctx }
@@ -211,12 +220,21 @@ func (s *subStream) Recv() (*pb.SubscribeRequest, error) {
 	if s.calls == 1 {
 		return s.first, s.ferr
 	}
+	// a poll trigger is only read after the first sync went out (otherwise
+	// the end of the stream races with the sender goroutine)
+	select {
+	case <-s.syncCh:
+	case <-time.After(2 * time.Second):
+	}
 	return nil, io.EOF
 }
 
 func (s *subStream) Send(r *pb.SubscribeResponse) error {
 	if r.GetSyncResponse() {
-		s.synced = true
+		if !s.synced {
+			s.synced = true
+			close(s.syncCh)
+		}
 		return errStop
 	}
 	return nil
@@ -243,7 +261,7 @@ func runSub(q *Req) (*Req, SObs) {
 	if q.Peer {
 		ctx = peer.NewContext(ctx, &peer.Peer{Addr: &net.TCPAddr{IP: net.IPv4(127, 0, 0, 1), Port: 1}})
 	}
-	st := &subStream{ctx: ctx}
+	st := &subStream{ctx: ctx, syncCh: make(chan struct{})}
 	seen := *q
 	switch q.Recv {
 	case "eof":
